@@ -1,4 +1,4 @@
-"""Reproduce the defects F1-F5, F7, F10-F14 of DESIGN.md s7 against the pyins in VERIF_REPO (default /repo).
+"""Reproduce the defects F1-F5, F7, F10-F15 of DESIGN.md s7 against the pyins in VERIF_REPO (default /repo).
 Prints one line per defect: `F<k> PRESENT|ABSENT <detail>`.  Not a registered check; used to
 document the fix commits and as a regression aid."""
 import os, sys, signal
@@ -143,9 +143,17 @@ def f14():
     want = np.array([[0, -1, 2], [1, 0, -3], [-2, 3, 0]], float)      # skew(v + C (rate x lever)) = skew((3, 2, 1))
     return not np.allclose(H[:, 6:9], want, atol=1e-12), f"attitude block of H = {np.round(H[:, 6:9], 6).tolist()} (dz/dphi = {want.tolist()})"
 
+def f15():
+    from pyins import kalman
+    F = np.diag(np.ones(3), 1); Q = np.diag([0.0, 1.0, 0.0, 2.0]); c = 2.0 ** -60
+    q1 = kalman.compute_process_matrices(F, Q, 1.0)[1]
+    q2 = kalman.compute_process_matrices(F, Q * c, 1.0)[1] / c
+    rel = float(np.max(np.abs(q2 - q1)) / np.max(np.abs(q1)))
+    return rel > 1e-9, "Qd(2^-60 Q) / 2^-60 differs from Qd(Q) by %.3g relative" % rel
+
 
 if __name__ == "__main__":
-    which = sys.argv[1:] or ["F1", "F2", "F2b", "F3", "F3b", "F4", "F5", "F7", "F10", "F11", "F12", "F13", "F14"]
-    table = dict(F1=f1, F2=f2, F2b=f2b, F3=f3, F3b=f3b, F4=f4, F5=f5, F7=f7, F10=f10, F11=f11, F12=f12, F13=f13, F14=f14)
+    which = sys.argv[1:] or ["F1", "F2", "F2b", "F3", "F3b", "F4", "F5", "F7", "F10", "F11", "F12", "F13", "F14", "F15"]
+    table = dict(F1=f1, F2=f2, F2b=f2b, F3=f3, F3b=f3b, F4=f4, F5=f5, F7=f7, F10=f10, F11=f11, F12=f12, F13=f13, F14=f14, F15=f15)
     for w in which:
         run(w, table[w])
